@@ -207,10 +207,30 @@ def leg_pandas_sqlite(ns, res, spec):
                 continue
             db = os.path.join(d, 'db_%d.sqlite' % n)
             conn = sqlite3.connect(db)
+            # table shapes: plain; with a GENERATED column (absent from PRAGMA table_info, present in SELECT *); read through a VIEW
+            shape = ['plain', 'generated', 'view'][n % 3]
+            gen_col = rng.randrange(len(names)) if shape == 'generated' and len(names) > 1 else None
+            other = None if gen_col is None else rng.choice([j for j in range(len(names)) if j != gen_col])
+            table_name = 'v' if shape == 'view' else 't'
             try:
-                conn.execute('CREATE TABLE t (%s)' % ', '.join('"%s" TEXT' % x.replace('"', '""') for x in names))
-                conn.executemany('INSERT INTO t VALUES (%s)' % ','.join('?' * len(names)), A)
+                defs = []
+                for j, x in enumerate(names):
+                    qn = '"%s"' % x.replace('"', '""')
+                    if j == gen_col:
+                        # the row digit is taken from a stored column ('r<row>c<col>'); rowid is not allowed in a generated column
+                        defs.append("%s TEXT GENERATED ALWAYS AS ('r' || substr(\"%s\", 2, 1) || 'c%d') %s" % (qn, names[other].replace('"', '""'), j, rng.choice(['VIRTUAL', 'STORED'])))
+                    else:
+                        defs.append(qn + ' TEXT')
+                conn.execute('CREATE TABLE t (%s)' % ', '.join(defs))
+                stored = [j for j in range(len(names)) if j != gen_col]
+                if stored:
+                    conn.executemany('INSERT INTO t (%s) VALUES (%s)' % (', '.join('"%s"' % names[j].replace('"', '""') for j in stored), ','.join('?' * len(stored))), [[r[j] for j in stored] for r in A])
+                else:
+                    raise sqlite3.Error('a table needs a stored column')
+                if shape == 'view':
+                    conn.execute('CREATE VIEW v AS SELECT * FROM t')
                 conn.commit()
+                res.count('sqlite_tables:' + (shape if shape != 'generated' or gen_col is not None else 'plain'))
             except sqlite3.Error:
                 conn.close()
                 continue
@@ -221,7 +241,7 @@ def leg_pandas_sqlite(ns, res, spec):
                     err = None
                     rows = None
                     try:
-                        ns.sqlite.query_sqlite_to_csv(qtext, conn, 't', outp, ',', 'quoted_rfc', 'utf-8', [])
+                        ns.sqlite.query_sqlite_to_csv(qtext, conn, table_name, outp, ',', 'quoted_rfc', 'utf-8', [])
                         with open(outp, encoding='utf-8', newline='') as f:
                             rr = refcsv.read_text(f.read(), ',', 'quoted_rfc', 'utf-8', True)
                         rows = [[r[0], int(r[1])] for r in rr.records]
@@ -389,7 +409,7 @@ def run_shard(spec, res):
 def summarize(tier, seed, m):
     return {
         'rule': 'random headers of 1-5 distinct names over printable ASCII incl. both quotes, backslash, backtick, brackets, #, =, %%, spaces, tab, newline, non-ASCII (and prefix / suffix / case variants of each other; names containing an a.ident / b.ident token excluded as quantified) over tables whose cell (r, c) is the unique token r{r}c{c}; for every column and every spelling (a["..."], a[\'...\'], a.name when identifier-safe, bare name in direct mode) the query `select <var>, NR` must return exactly that column and NR = 1.. ; sources: list column names, pandas columns, sqlite columns, CSV header line (query_csv); WITH (header | noheader | headers | noheaders) x caller flag x {input, input + join} on CSV incl. the command line. distinct_nontrivial = distinct (source, header, column, spelling) lookups.',
-        'required': ['js_lookups', 'js_lookups:bt', 'named_target:update', 'named_target:except', 'named_target:joinkey', 'list_lookups', 'list_lookups:dq', 'list_lookups:sq', 'list_lookups:attr', 'direct_mode_lookups', 'pandas_lookups', 'sqlite_lookups', 'csv_lookups', 'with_modifier_runs', 'with_modifier_named_join_runs', 'header_never_data_checks', 'cli_with_modifier_runs'],
+        'required': ['js_lookups', 'js_lookups:bt', 'named_target:update', 'named_target:except', 'named_target:joinkey', 'list_lookups', 'list_lookups:dq', 'list_lookups:sq', 'list_lookups:attr', 'direct_mode_lookups', 'pandas_lookups', 'sqlite_lookups', 'sqlite_tables:generated', 'sqlite_tables:view', 'csv_lookups', 'with_modifier_runs', 'with_modifier_named_join_runs', 'header_never_data_checks', 'cli_with_modifier_runs'],
         'assumptions': ['a.name only for names that are not Python / JS keywords and do not collide with members of the record object; direct mode only for names that do not shadow the engine\'s own locals (documented limitations)'],
     }
 
